@@ -282,12 +282,12 @@ func FieldOf(v ssa.Value, fieldName string) (ssa.Value, bool) {
 	switch x := v.(type) {
 	case *ssa.FieldAddr:
 		st, ok := deref(x.X.Type()).Underlying().(*types.Struct)
-		if ok && st.Field(x.Field).Name() == fieldName {
+		if ok && canonField(st, x.Field) == fieldName {
 			return x.X, true
 		}
 	case *ssa.Field:
 		st, ok := x.X.Type().Underlying().(*types.Struct)
-		if ok && st.Field(x.Field).Name() == fieldName {
+		if ok && canonField(st, x.Field) == fieldName {
 			return x.X, true
 		}
 	}
@@ -303,7 +303,7 @@ func FieldPath(v ssa.Value) (root ssa.Value, path []string) {
 		if u, ok := v.(*ssa.UnOp); ok && u.Op == token.MUL {
 			if fa, ok := u.X.(*ssa.FieldAddr); ok {
 				st := deref(fa.X.Type()).Underlying().(*types.Struct)
-				path = append([]string{st.Field(fa.Field).Name()}, path...)
+				path = append([]string{canonField(st, fa.Field)}, path...)
 				v = Strip(fa.X)
 				continue
 			}
@@ -311,13 +311,13 @@ func FieldPath(v ssa.Value) (root ssa.Value, path []string) {
 		}
 		if fa, ok := v.(*ssa.FieldAddr); ok {
 			st := deref(fa.X.Type()).Underlying().(*types.Struct)
-			path = append([]string{st.Field(fa.Field).Name()}, path...)
+			path = append([]string{canonField(st, fa.Field)}, path...)
 			v = Strip(fa.X)
 			continue
 		}
 		if f, ok := v.(*ssa.Field); ok {
 			st := f.X.Type().Underlying().(*types.Struct)
-			path = append([]string{st.Field(f.Field).Name()}, path...)
+			path = append([]string{canonField(st, f.Field)}, path...)
 			v = Strip(f.X)
 			continue
 		}
@@ -332,7 +332,7 @@ func FieldAddrName(fa *ssa.FieldAddr) (typ, field string) {
 	if !ok {
 		return "", ""
 	}
-	return namedName(t), st.Field(fa.Field).Name()
+	return namedName(t), canonField(st, fa.Field)
 }
 
 // ConstInt returns the integer value of a constant value.
@@ -543,4 +543,16 @@ func resolveBoundary(v ssa.Value) ssa.Value {
 		}
 	}
 	return v
+}
+
+// canonField: the name under which the rule tables know field i of st: its recorded name
+// when the field was renamed since the fingerprints were taken (Prog.FieldAlias).
+func canonField(st *types.Struct, i int) string {
+	f := st.Field(i)
+	if Current != nil && len(Current.FieldAlias) > 0 {
+		if old, ok := Current.FieldAlias[f]; ok {
+			return old
+		}
+	}
+	return f.Name()
 }
